@@ -26,6 +26,9 @@ pub struct Rec {
     pub fields: [(&'static str, V); MAXF],
 }
 impl Rec {
+    pub fn new_pub() -> Self {
+        Self::new()
+    }
     fn new() -> Self {
         Rec { name: "", n: 0, fields: [("", V::None); MAXF] }
     }
